@@ -711,8 +711,20 @@ func fieldMap(mappings []*FieldMapping, allowMapKeyNotFound bool) func(any) (map
 }
 
 func streamFieldMap(mappings []*FieldMapping) func(streamReader) streamReader {
+	mapChunk := fieldMap(mappings, true)
 	return func(input streamReader) streamReader {
-		return packStreamReader(schema.StreamReaderWithConvert(input.toAnyStreamReader(), fieldMap(mappings, true)))
+		return packStreamReader(schema.StreamReaderWithConvert(input.toAnyStreamReader(), func(chunk any) (map[string]any, error) {
+			mapped, err := mapChunk(chunk)
+			if err != nil {
+				return nil, err
+			}
+			if len(mapped) == 0 && len(mappings) > 0 {
+				// a chunk of a map that holds none of the mapped keys has nothing for the successor: it must
+				// not turn into an item of its own (a fresh pointer, a nil interface value) downstream
+				return nil, schema.ErrNoValue
+			}
+			return mapped, nil
+		}))
 	}
 }
 
